@@ -7,6 +7,7 @@ import (
 	"go/token"
 	"regexp"
 	"sort"
+	"strconv"
 	"strings"
 )
 
@@ -49,8 +50,70 @@ func (c *nctx) without(names ...string) *nctx {
 	return n
 }
 
+// Models of library functions that take or hide a loop: the call is expanded from the model like a package helper, so
+// `slices.ContainsFunc(xs, func(x T) bool { return p(x) })` reads like the loop it abbreviates.
+const libModelSrc = `package model
+
+func slices_Contains(s []any, want any) bool {
+	for _, v := range s {
+		if v == want {
+			return true
+		}
+	}
+	return false
+}
+
+func slices_ContainsFunc(s []any, f func(any) bool) bool {
+	for _, v := range s {
+		if f(v) {
+			return true
+		}
+	}
+	return false
+}
+
+func slices_Index(s []any, want any) int {
+	for i, v := range s {
+		if v == want {
+			return i
+		}
+	}
+	return -1
+}
+
+func slices_IndexFunc(s []any, f func(any) bool) int {
+	for i, v := range s {
+		if f(v) {
+			return i
+		}
+	}
+	return -1
+}
+`
+
+var libModels = map[string]bool{}
+
+var libModelDecls = func() map[string]*ast.FuncDecl {
+	out := map[string]*ast.FuncDecl{}
+	f, err := parser.ParseFile(token.NewFileSet(), "model.go", libModelSrc, 0)
+	if err != nil {
+		panic(err)
+	}
+	for _, d := range f.Decls {
+		if fd, ok := d.(*ast.FuncDecl); ok {
+			key := strings.Replace(fd.Name.Name, "_", ".", 1)
+			out[key] = fd
+			libModels[key] = true
+		}
+	}
+	return out
+}()
+
 func newNctx(decls []*ast.FuncDecl) *nctx {
 	c := &nctx{funcs: map[string]*ast.FuncDecl{}}
+	for k, d := range libModelDecls {
+		c.funcs[k] = d
+	}
 	for _, d := range decls {
 		if d.Body == nil {
 			continue
@@ -83,6 +146,15 @@ type nframe struct {
 	tail   bool // inlined call in return position: the helper's returns are the caller's
 	parent *nframe
 	level  int
+	// function literals: a local defined once as a literal, or a function-typed parameter bound to one, is expanded at
+	// its calls like a helper; lexical is the frame the literal was written in (its free variables are named there)
+	closures map[string]*nclosure
+	lexical  *nframe
+}
+
+type nclosure struct {
+	decl *ast.FuncDecl // the literal as a declaration (name = the local's name)
+	lex  *nframe
 }
 
 type nstate struct {
@@ -93,18 +165,20 @@ type nstate struct {
 }
 
 type nenum struct {
-	c         *nctx
-	cur       []nstate
-	finished  []bpath
-	depth     int // loop depth
-	swLevel   int
-	swDepth   []int
-	overflow  bool
-	counter   *int
-	inlining  map[*ast.FuncDecl]bool
-	extraScan *ast.FuncLit   // function literal containing the analysed block (normBlock)
-	labels    map[string]int // label of a loop -> its depth
-	baseDepth int            // loop depth of the analysed block itself (normBlock): branches at this depth leave it
+	c          *nctx
+	cur        []nstate
+	finished   []bpath
+	depth      int // loop depth
+	swLevel    int
+	swDepth    []int
+	overflow   bool
+	counter    *int
+	inlining   map[*ast.FuncDecl]bool
+	closureLex map[*ast.FuncDecl]*nframe // frame in which an expanded function literal was written
+	litDecls   map[*ast.FuncLit]*ast.FuncDecl
+	extraScan  *ast.FuncLit   // function literal containing the analysed block (normBlock)
+	labels     map[string]int // label of a loop -> its depth
+	baseDepth  int            // loop depth of the analysed block itself (normBlock): branches at this depth leave it
 }
 
 // endIteration re-activates the paths that left the current iteration of the loop at the current depth.
@@ -262,10 +336,92 @@ func propagateAll(in []bpath) []bpath {
 			}
 		}
 		if feasible {
-			out = append(out, q)
+			out = append(out, mergeWrites(q))
 		}
 	}
 	return out
+}
+
+var writeCallRe = regexp.MustCompile(`^((?:\$\d+|[A-Za-z_]\w*)(?:\.[A-Za-z_]\w*)*)\.(WriteString|WriteByte|WriteRune)\((.*)\)$`)
+
+// writeOperand renders the argument of a buffer write as a string expression (a byte or rune literal becomes the
+// one-character string literal).
+func writeOperand(method, arg string) (string, bool) {
+	if method == "WriteString" {
+		return arg, true
+	}
+	if len(arg) >= 3 && arg[0] == '\'' && arg[len(arg)-1] == '\'' {
+		if r, _, tail, err := strconv.UnquoteChar(arg[1:len(arg)-1], '\''); err == nil && tail == "" {
+			return strconv.Quote(string(r)), true
+		}
+	}
+	return "", false
+}
+
+// mergeWrites: consecutive writes to one buffer append the concatenation of their operands; they read as a single
+// WriteString of it (`b.WriteString(x); b.WriteByte('\n')` is `b.WriteString(x + "\n")`). Only the evaluation of the
+// later write's own operand may lie between the two.
+func mergeWrites(p bpath) bpath {
+	last := -1 // index in out of the pending write
+	var lastBuf, lastArg string
+	out := make(bpath, 0, len(p))
+	for _, ev := range p {
+		if ev.Kind == "call" {
+			if m := writeCallRe.FindStringSubmatch(ev.Text); m != nil {
+				arg, ok := writeOperand(m[2], m[3])
+				if ok && last >= 0 && lastBuf == m[1] {
+					between := true
+					for _, b := range out[last+1:] {
+						if b.Kind != "call" || !strings.Contains(m[3], b.Text) {
+							between = false
+						}
+					}
+					if between {
+						joined := lastArg + "+" + arg
+						if isStringLit(lastArg) && isStringLit(arg) {
+							a, _ := strconv.Unquote(lastArg)
+							b, _ := strconv.Unquote(arg)
+							joined = strconv.Quote(a + b)
+						} else if k := strings.LastIndex(lastArg, `+"`); k > 0 && isStringLit(lastArg[k+1:]) && isStringLit(arg) {
+							a, _ := strconv.Unquote(lastArg[k+1:])
+							b, _ := strconv.Unquote(arg)
+							joined = lastArg[:k+1] + strconv.Quote(a+b)
+						}
+						merged := ev
+						merged.Text = m[1] + ".WriteString(" + joined + ")"
+						rest := append(bpath{}, out[last+1:]...)
+						out = append(out[:last], rest...)
+						out = append(out, merged)
+						last, lastArg = len(out)-1, joined
+						continue
+					}
+				}
+				out = append(out, ev)
+				if ok {
+					if m[2] != "WriteString" {
+						out[len(out)-1].Text = m[1] + ".WriteString(" + arg + ")"
+					}
+					last, lastBuf, lastArg = len(out)-1, m[1], arg
+				} else {
+					last = -1
+				}
+				continue
+			}
+		}
+		if ev.Kind != "call" {
+			last = -1
+		}
+		out = append(out, ev)
+	}
+	return out
+}
+
+func isStringLit(s string) bool {
+	if len(s) < 2 || s[0] != '"' {
+		return false
+	}
+	_, err := strconv.Unquote(s)
+	return err == nil
 }
 
 // wholeCall: the text is one call expression f(...) and nothing after it.
@@ -347,12 +503,19 @@ func propagate(p bpath) bpath {
 // propagateRaw is propagate; raw[i] is the text of fact i before values were substituted ("" for other events).
 func propagateRaw(p bpath) (bpath, []string) {
 	env := map[string]string{}
+	// the stores of one tuple assignment (`a, b = f(a)`) all read the values from before the assignment
+	var tupleEnv map[string]string
+	var tupleNode ast.Node
 	sub := func(s string) string {
-		if len(env) == 0 || !strings.Contains(s, "$") {
+		from := env
+		if tupleEnv != nil {
+			from = tupleEnv
+		}
+		if len(from) == 0 || !strings.Contains(s, "$") {
 			return s
 		}
 		return dollarRe.ReplaceAllStringFunc(s, func(m string) string {
-			if v, ok := env[m]; ok {
+			if v, ok := from[m]; ok {
 				return v
 			}
 			return m
@@ -384,6 +547,14 @@ func propagateRaw(p bpath) (bpath, []string) {
 			}
 		}
 		if ev.Kind == "call" || ev.Kind == "ccall" {
+			// sorted or reversed in place: the local names the slice that is rearranged, not the value it was given
+			for _, pre := range []string{"slices.Sort(", "slices.SortFunc(", "slices.SortStableFunc(", "slices.Reverse(", "sort.Strings(", "sort.Ints(", "sort.Slice(", "sort.Sort("} {
+				if strings.HasPrefix(ev.Text, pre) {
+					if m := dollarRe.FindString(ev.Text[len(pre):]); m != "" && strings.HasPrefix(ev.Text[len(pre):], m) {
+						object[m] = true
+					}
+				}
+			}
 			if m := dollarRe.FindString(ev.Text); m != "" && strings.HasPrefix(ev.Text, m+".") {
 				rest := ev.Text[len(m)+1:]
 				for _, mm := range []string{"WriteString(", "WriteRune(", "WriteByte(", "Write(", "Reset(", "Grow(", "Discard("} {
@@ -396,6 +567,17 @@ func propagateRaw(p bpath) (bpath, []string) {
 	}
 	for _, ev := range p {
 		ne := ev
+		if as, ok := ev.Node.(*ast.AssignStmt); ok && ev.Kind == "set" && len(as.Lhs) > 1 {
+			if tupleNode != ev.Node {
+				tupleNode = ev.Node
+				tupleEnv = map[string]string{}
+				for k, v := range env {
+					tupleEnv[k] = v
+				}
+			}
+		} else {
+			tupleNode, tupleEnv = nil, nil
+		}
 		if ev.Kind == "loop" {
 			if strings.HasPrefix(ev.Text, "range ") {
 				ne.Text = "range " + minParens(sub(strings.TrimPrefix(ev.Text, "range ")))
@@ -425,7 +607,8 @@ func propagateRaw(p bpath) (bpath, []string) {
 			if i := strings.Index(ev.Text, "="); i > 0 && dollarRe.MatchString(ev.Text[:i]) && dollarRe.FindString(ev.Text[:i]) == ev.Text[:i] {
 				name, v := ev.Text[:i], sub(ev.Text[i+1:])
 				// the result of a call: a second evaluation of the same call text on this path is a different value
-				if strings.Contains(v, "(") && !strings.HasPrefix(v, "append(") {
+				// (a copy of a local that holds a call's result evaluates nothing)
+				if strings.Contains(ev.Text[i+1:], "(") && !strings.HasPrefix(v, "append(") {
 					seenCall[v]++
 					if k := seenCall[v]; k > 1 {
 						v = fmt.Sprintf("nth%d(%s)", k, v)
@@ -672,7 +855,57 @@ func (c *nctx) normBlockNamed(fd *ast.FuncDecl, list []ast.Stmt) ([]bpath, map[s
 }
 
 func (e *nenum) newFrame(fd *ast.FuncDecl, parent *nframe, subst map[string]string) *nframe {
-	fr := &nframe{fd: fd, subst: map[string]string{}, defs: map[string]ast.Expr{}, multi: map[string]string{}, parent: parent}
+	return e.newFrameLex(fd, parent, subst, nil)
+}
+
+// declaredIn lists the names a function body declares itself (parameters, results, :=, var, range with :=).
+func declaredIn(ft *ast.FuncType, body *ast.BlockStmt) map[string]bool {
+	out := map[string]bool{}
+	for _, fl := range []*ast.FieldList{ft.Params, ft.Results} {
+		if fl != nil {
+			for _, f := range fl.List {
+				for _, nm := range f.Names {
+					out[nm.Name] = true
+				}
+			}
+		}
+	}
+	ast.Inspect(body, func(n ast.Node) bool {
+		switch x := n.(type) {
+		case *ast.FuncLit:
+			return false
+		case *ast.AssignStmt:
+			if x.Tok == token.DEFINE {
+				for _, l := range x.Lhs {
+					if id, ok := l.(*ast.Ident); ok {
+						out[id.Name] = true
+					}
+				}
+			}
+		case *ast.ValueSpec:
+			for _, nm := range x.Names {
+				out[nm.Name] = true
+			}
+		case *ast.RangeStmt:
+			if x.Tok == token.DEFINE {
+				for _, v := range []ast.Expr{x.Key, x.Value} {
+					if id, ok := v.(*ast.Ident); ok {
+						out[id.Name] = true
+					}
+				}
+			}
+		}
+		return true
+	})
+	return out
+}
+
+func (e *nenum) newFrameLex(fd *ast.FuncDecl, parent *nframe, subst map[string]string, lexical *nframe) *nframe {
+	fr := &nframe{fd: fd, subst: map[string]string{}, defs: map[string]ast.Expr{}, multi: map[string]string{}, parent: parent, closures: map[string]*nclosure{}, lexical: lexical}
+	var own map[string]bool
+	if lexical != nil {
+		own = declaredIn(fd.Type, fd.Body)
+	}
 	if parent != nil {
 		fr.level = parent.level + 1
 	}
@@ -684,6 +917,9 @@ func (e *nenum) newFrame(fd *ast.FuncDecl, parent *nframe, subst map[string]stri
 	note := func(name string, n int) {
 		if name == "_" {
 			return
+		}
+		if own != nil && !own[name] {
+			return // a variable of the enclosing function: named there
 		}
 		if _, ok := count[name]; !ok {
 			order = append(order, name)
@@ -709,6 +945,27 @@ func (e *nenum) newFrame(fd *ast.FuncDecl, parent *nframe, subst map[string]stri
 	scan := func(n ast.Node) bool {
 		switch x := n.(type) {
 		case *ast.FuncLit:
+			if n != scanRoot {
+				// what the literal stores into variables of this function counts as a further definition of them
+				inner := declaredIn(x.Type, x.Body)
+				ast.Inspect(x.Body, func(m ast.Node) bool {
+					switch y := m.(type) {
+					case *ast.AssignStmt:
+						if y.Tok != token.DEFINE {
+							for _, l := range y.Lhs {
+								if id, ok := l.(*ast.Ident); ok && !inner[id.Name] {
+									note(id.Name, 2)
+								}
+							}
+						}
+					case *ast.IncDecStmt:
+						if id, ok := y.X.(*ast.Ident); ok && !inner[id.Name] {
+							note(id.Name, 2)
+						}
+					}
+					return true
+				})
+			}
 			return n == scanRoot
 		case *ast.AssignStmt:
 			if len(x.Rhs) == 1 {
@@ -728,6 +985,9 @@ func (e *nenum) newFrame(fd *ast.FuncDecl, parent *nframe, subst map[string]stri
 				if x.Tok == token.DEFINE && len(x.Lhs) == len(x.Rhs) {
 					if _, seen := fr.defs[id.Name]; !seen && count[id.Name] == 0 {
 						fr.defs[id.Name] = x.Rhs[i]
+						if lit, ok := stripParens(x.Rhs[i]).(*ast.FuncLit); ok {
+							fr.closures[id.Name] = &nclosure{decl: e.litDecl(id.Name, lit), lex: fr}
+						}
 					}
 					note(id.Name, 1)
 				} else {
@@ -875,6 +1135,11 @@ func (e *nenum) newFrame(fd *ast.FuncDecl, parent *nframe, subst map[string]stri
 		}
 		return true
 	})
+	for name := range fr.closures {
+		if count[name] != 1 {
+			delete(fr.closures, name) // reassigned: which literal a call runs is not known here
+		}
+	}
 	for _, name := range order {
 		if count[name] == 1 {
 			if d, ok := fr.defs[name]; ok && !mutated[name] && !isAlloc(d) {
@@ -911,6 +1176,9 @@ func (e *nenum) renderD(fr *nframe, x ast.Expr, depth int) string {
 		}
 		if s, ok := fr.multi[v.Name]; ok {
 			return s
+		}
+		if fr.lexical != nil {
+			return e.renderD(fr.lexical, v, depth)
 		}
 		// a package-level constant reads as its literal (a format string or marker given a name)
 		if lit, ok := e.c.consts[v.Name]; ok {
@@ -971,7 +1239,81 @@ func (e *nenum) renderD(fr *nframe, x ast.Expr, depth int) string {
 }
 
 func (e *nenum) cond(fr *nframe, x ast.Expr, neg bool) string {
-	return canonCondWith(x, neg, func(l ast.Expr) string { return e.render(fr, l) })
+	return canonCondWith(e.expandBoolLocals(fr, x, 0), neg, func(l ast.Expr) string { return e.render(fr, l) })
+}
+
+// expandBoolLocals: a local defined once as a boolean combination (`invalid := a && b`) and used as an operand of a
+// condition stands for that combination: `if invalid && !c` assumes a, b and !c like `if a && b && !c` does.
+func (e *nenum) expandBoolLocals(fr *nframe, x ast.Expr, depth int) ast.Expr {
+	if depth > 4 {
+		return x
+	}
+	switch v := x.(type) {
+	case *ast.ParenExpr:
+		if in := e.expandBoolLocals(fr, v.X, depth); in != v.X {
+			return &ast.ParenExpr{Lparen: v.Lparen, X: in, Rparen: v.Rparen}
+		}
+	case *ast.UnaryExpr:
+		if v.Op == token.NOT {
+			if in := e.expandBoolLocals(fr, v.X, depth); in != v.X {
+				return &ast.UnaryExpr{OpPos: v.OpPos, Op: v.Op, X: in}
+			}
+		}
+	case *ast.BinaryExpr:
+		if v.Op == token.LAND || v.Op == token.LOR {
+			l, r := e.expandBoolLocals(fr, v.X, depth), e.expandBoolLocals(fr, v.Y, depth)
+			if l != v.X || r != v.Y {
+				return &ast.BinaryExpr{X: l, OpPos: v.OpPos, Op: v.Op, Y: r}
+			}
+		}
+	case *ast.CallExpr:
+		// a test given a name (`isSingleChar(l)` for `utf8.RuneCountInString(l.Val) == 1`) reads as the test
+		if d := e.helperOf(fr, v); d != nil && isPredicateHelper(d) {
+			m := map[string]ast.Expr{}
+			ok := true
+			i := 0
+			if d.Type.Params != nil {
+				for _, f := range d.Type.Params.List {
+					for _, nm := range f.Names {
+						if i >= len(v.Args) || hasEffectCall(v.Args[i]) {
+							ok = false
+						} else {
+							m[nm.Name] = v.Args[i]
+						}
+						i++
+					}
+				}
+			}
+			if d.Recv != nil && len(d.Recv.List) == 1 && len(d.Recv.List[0].Names) == 1 {
+				if sel, isSel := v.Fun.(*ast.SelectorExpr); isSel {
+					m[d.Recv.List[0].Names[0].Name] = sel.X
+				}
+			}
+			if ok {
+				if body, okc := substIdents(d.Body.List[0].(*ast.ReturnStmt).Results[0], m); okc {
+					return &ast.ParenExpr{X: e.expandBoolLocals(fr, body, depth+1)}
+				}
+			}
+		}
+	case *ast.Ident:
+		if _, isSubst := fr.subst[v.Name]; isSubst {
+			return x
+		}
+		if d, ok := fr.defs[v.Name]; ok {
+			switch dv := stripParens(d).(type) {
+			case *ast.BinaryExpr:
+				switch dv.Op {
+				case token.LAND, token.LOR:
+					return &ast.ParenExpr{X: e.expandBoolLocals(fr, dv, depth+1)}
+				}
+			case *ast.UnaryExpr:
+				if dv.Op == token.NOT {
+					return &ast.ParenExpr{X: e.expandBoolLocals(fr, dv, depth+1)}
+				}
+			}
+		}
+	}
+	return x
 }
 
 func (e *nenum) add(evs ...pev) {
@@ -1079,10 +1421,28 @@ func (e *nenum) calls(fr *nframe, n ast.Node) {
 // helperOf resolves a call to an inlinable helper of the package.
 func (e *nenum) helperOf(fr *nframe, ce *ast.CallExpr) *ast.FuncDecl {
 	var d *ast.FuncDecl
+	isClosure := false
 	switch f := ce.Fun.(type) {
 	case *ast.Ident:
-		d = e.c.funcs[f.Name]
+		if cl := fr.closureNamed(f.Name); cl != nil {
+			d, isClosure = cl.decl, true
+			if e.closureLex == nil {
+				e.closureLex = map[*ast.FuncDecl]*nframe{}
+			}
+			e.closureLex[d] = cl.lex
+		} else {
+			d = e.c.funcs[f.Name]
+		}
 	case *ast.SelectorExpr:
+		// a modelled library function (slices.ContainsFunc, …): expanded from its model like a helper
+		if id, ok := f.X.(*ast.Ident); ok {
+			if m := e.c.funcs[id.Name+"."+f.Sel.Name]; m != nil && libModels[id.Name+"."+f.Sel.Name] && fr.closureNamed(id.Name) == nil && fr.multi[id.Name] == "" && fr.defs[id.Name] == nil {
+				if _, isSubst := fr.subst[id.Name]; !isSubst {
+					d = m
+					break
+				}
+			}
+		}
 		// method of the package called on the current receiver (or a value whose type is not resolved here)
 		if cur := fr.fd; cur.Recv != nil && len(cur.Recv.List) == 1 && len(cur.Recv.List[0].Names) == 1 {
 			if id, ok := f.X.(*ast.Ident); ok && id.Name == cur.Recv.List[0].Names[0].Name {
@@ -1098,7 +1458,7 @@ func (e *nenum) helperOf(fr *nframe, ce *ast.CallExpr) *ast.FuncDecl {
 			}
 		}
 	}
-	if d == nil || d.Body == nil || e.inlining[d] || fr.level >= 3 || e.c.noInline[d.Name.Name] {
+	if d == nil || d.Body == nil || e.inlining[d] || fr.level >= 4 || (fr.level >= 3 && !isClosure) || e.c.noInline[d.Name.Name] {
 		return nil
 	}
 	// small, and free of constructs the substitution cannot carry
@@ -1140,6 +1500,34 @@ func (e *nenum) helperOf(fr *nframe, ce *ast.CallExpr) *ast.FuncDecl {
 	return d
 }
 
+// closureNamed resolves a name to a function literal through the frame and the frames it is lexically nested in.
+func (fr *nframe) closureNamed(name string) *nclosure {
+	for f := fr; f != nil; f = f.lexical {
+		if cl := f.closures[name]; cl != nil {
+			return cl
+		}
+		if _, shadow := f.subst[name]; shadow {
+			return nil
+		}
+		if _, shadow := f.defs[name]; shadow {
+			return nil
+		}
+	}
+	return nil
+}
+
+func (e *nenum) litDecl(name string, lit *ast.FuncLit) *ast.FuncDecl {
+	if e.litDecls == nil {
+		e.litDecls = map[*ast.FuncLit]*ast.FuncDecl{}
+	}
+	if d := e.litDecls[lit]; d != nil {
+		return d
+	}
+	d := &ast.FuncDecl{Name: ast.NewIdent(name), Type: lit.Type, Body: lit.Body}
+	e.litDecls[lit] = d
+	return d
+}
+
 // inline expands a helper call: results go to retTo (nil: dropped) or, for tail, become the caller's return.
 func (e *nenum) inline(fr *nframe, ce *ast.CallExpr, d *ast.FuncDecl, retTo []ast.Expr, tok token.Token, tail bool) {
 	subst := map[string]string{}
@@ -1172,7 +1560,26 @@ func (e *nenum) inline(fr *nframe, ce *ast.CallExpr, d *ast.FuncDecl, retTo []as
 			subst[d.Recv.List[0].Names[0].Name] = e.render(fr, sel.X)
 		}
 	}
-	nf := e.newFrame(d, fr, subst)
+	nf := e.newFrameLex(d, fr, subst, e.closureLex[d])
+	// a function-typed parameter bound to a literal (or to a local that names one) is expanded where the helper calls it
+	if d.Type.Params != nil {
+		k := 0
+		for _, f := range d.Type.Params.List {
+			for _, nm := range f.Names {
+				if k < len(ce.Args) {
+					switch a := stripParens(ce.Args[k]).(type) {
+					case *ast.FuncLit:
+						nf.closures[nm.Name] = &nclosure{decl: e.litDecl(nm.Name, a), lex: fr}
+					case *ast.Ident:
+						if cl := fr.closureNamed(a.Name); cl != nil {
+							nf.closures[nm.Name] = cl
+						}
+					}
+				}
+				k++
+			}
+		}
+	}
 	nf.ptr = ptr
 	nf.retTo, nf.retTok, nf.tail = retTo, tok, tail
 	// a parameter the helper assigns to is a local of the helper that starts as the argument
@@ -1217,7 +1624,7 @@ func (e *nenum) hoistArgs(fr *nframe, ce *ast.CallExpr) *ast.CallExpr {
 			continue
 		}
 		d := e.helperOf(fr, ac)
-		if d == nil || d.Type.Results == nil || len(d.Type.Results.List) != 1 || len(d.Type.Results.List[0].Names) > 1 || len(d.Body.List) < 2 {
+		if d == nil || d.Type.Results == nil || len(d.Type.Results.List) != 1 || len(d.Type.Results.List[0].Names) > 1 || (len(d.Body.List) < 2 && e.closureLex[d] == nil) {
 			continue
 		}
 		if out == nil {
@@ -1272,7 +1679,7 @@ func (e *nenum) hoistCond(fr *nframe, cond ast.Expr) ast.Expr {
 		}
 	case *ast.CallExpr:
 		d := e.helperOf(fr, c)
-		if d == nil || d.Type.Results == nil || len(d.Type.Results.List) != 1 || len(d.Type.Results.List[0].Names) > 1 || len(d.Body.List) < 2 {
+		if d == nil || d.Type.Results == nil || len(d.Type.Results.List) != 1 || len(d.Type.Results.List[0].Names) > 1 || (len(d.Body.List) < 2 && e.closureLex[d] == nil && !isPredicateHelper(d)) {
 			return cond
 		}
 		*e.counter++
@@ -1283,6 +1690,152 @@ func (e *nenum) hoistCond(fr *nframe, cond ast.Expr) ast.Expr {
 		return id
 	}
 	return cond
+}
+
+// substIdents copies an expression with the identifiers in m replaced by the given expressions (parenthesised when
+// they are not atoms); ok=false when the expression contains a construct that is not copied.
+func substIdents(x ast.Expr, m map[string]ast.Expr) (ast.Expr, bool) {
+	switch v := x.(type) {
+	case nil:
+		return nil, true
+	case *ast.Ident:
+		if r, ok := m[v.Name]; ok {
+			switch r.(type) {
+			case *ast.Ident, *ast.SelectorExpr, *ast.IndexExpr, *ast.BasicLit, *ast.CallExpr, *ast.ParenExpr:
+				return r, true
+			}
+			return &ast.ParenExpr{X: r}, true
+		}
+		return v, true
+	case *ast.BasicLit:
+		return v, true
+	case *ast.ParenExpr:
+		in, ok := substIdents(v.X, m)
+		return &ast.ParenExpr{Lparen: v.Lparen, X: in, Rparen: v.Rparen}, ok
+	case *ast.SelectorExpr:
+		in, ok := substIdents(v.X, m)
+		return &ast.SelectorExpr{X: in, Sel: v.Sel}, ok
+	case *ast.IndexExpr:
+		a, ok1 := substIdents(v.X, m)
+		b, ok2 := substIdents(v.Index, m)
+		return &ast.IndexExpr{X: a, Lbrack: v.Lbrack, Index: b, Rbrack: v.Rbrack}, ok1 && ok2
+	case *ast.SliceExpr:
+		a, ok1 := substIdents(v.X, m)
+		lo, ok2 := substIdents(v.Low, m)
+		hi, ok3 := substIdents(v.High, m)
+		if v.Max != nil {
+			return nil, false
+		}
+		return &ast.SliceExpr{X: a, Lbrack: v.Lbrack, Low: lo, High: hi, Rbrack: v.Rbrack}, ok1 && ok2 && ok3
+	case *ast.StarExpr:
+		in, ok := substIdents(v.X, m)
+		return &ast.StarExpr{Star: v.Star, X: in}, ok
+	case *ast.UnaryExpr:
+		in, ok := substIdents(v.X, m)
+		return &ast.UnaryExpr{OpPos: v.OpPos, Op: v.Op, X: in}, ok
+	case *ast.BinaryExpr:
+		a, ok1 := substIdents(v.X, m)
+		b, ok2 := substIdents(v.Y, m)
+		return &ast.BinaryExpr{X: a, OpPos: v.OpPos, Op: v.Op, Y: b}, ok1 && ok2
+	case *ast.TypeAssertExpr:
+		in, ok := substIdents(v.X, m)
+		return &ast.TypeAssertExpr{X: in, Lparen: v.Lparen, Type: v.Type, Rparen: v.Rparen}, ok
+	case *ast.CallExpr:
+		fun := v.Fun
+		if sel, isSel := v.Fun.(*ast.SelectorExpr); isSel {
+			in, ok := substIdents(sel.X, m)
+			if !ok {
+				return nil, false
+			}
+			fun = &ast.SelectorExpr{X: in, Sel: sel.Sel}
+		} else if id, isID := v.Fun.(*ast.Ident); isID {
+			if _, shadowed := m[id.Name]; shadowed {
+				return nil, false
+			}
+		} else if _, isArr := v.Fun.(*ast.ArrayType); !isArr {
+			return nil, false
+		}
+		args := make([]ast.Expr, len(v.Args))
+		for i, a := range v.Args {
+			in, ok := substIdents(a, m)
+			if !ok {
+				return nil, false
+			}
+			args[i] = in
+		}
+		return &ast.CallExpr{Fun: fun, Lparen: v.Lparen, Args: args, Ellipsis: v.Ellipsis, Rparen: v.Rparen}, true
+	}
+	return nil, false
+}
+
+// isPredicateHelper: the helper is a single `return <comparison or boolean combination>`: a test given a name
+// (`isSingleChar(s)` for `utf8.RuneCountInString(s) == 1`); in a condition it reads as the test itself.
+func isPredicateHelper(d *ast.FuncDecl) bool {
+	if d.Body == nil || len(d.Body.List) != 1 {
+		return false
+	}
+	rs, ok := d.Body.List[0].(*ast.ReturnStmt)
+	if !ok || len(rs.Results) != 1 {
+		return false
+	}
+	switch x := stripParens(rs.Results[0]).(type) {
+	case *ast.BinaryExpr:
+		switch x.Op {
+		case token.EQL, token.NEQ, token.LSS, token.LEQ, token.GTR, token.GEQ, token.LAND, token.LOR:
+			return true
+		}
+	case *ast.UnaryExpr:
+		return x.Op == token.NOT
+	}
+	return false
+}
+
+// hasEffectCall: the expression contains a call that is more than a built-in or a conversion.
+func hasEffectCall(x ast.Expr) bool {
+	found := false
+	ast.Inspect(x, func(n ast.Node) bool {
+		if _, ok := n.(*ast.FuncLit); ok {
+			return false
+		}
+		if ce, ok := n.(*ast.CallExpr); ok {
+			switch callName(ce) {
+			case "len", "cap", "string", "int", "rune", "byte", "min", "max", "int64", "uint", "float64", "[]rune", "[]byte":
+			default:
+				found = true
+			}
+		}
+		return true
+	})
+	return found
+}
+
+// shortCircuitAssign: `x = a && f()` stores f() only when a holds and false otherwise; it is rewritten to the `if`
+// it abbreviates so that both spellings enumerate the same paths (the store must target a field, an element or a
+// local with several definitions - a local defined once is a name for its text).
+func (e *nenum) shortCircuitAssign(fr *nframe, x *ast.AssignStmt) ast.Stmt {
+	if len(x.Lhs) != 1 || len(x.Rhs) != 1 || (x.Tok != token.ASSIGN && x.Tok != token.DEFINE) {
+		return nil
+	}
+	be, ok := stripParens(x.Rhs[0]).(*ast.BinaryExpr)
+	if !ok || (be.Op != token.LAND && be.Op != token.LOR) || !hasEffectCall(be.Y) {
+		return nil
+	}
+	if id, ok := x.Lhs[0].(*ast.Ident); ok {
+		if _, single := fr.defs[id.Name]; single || id.Name == "_" {
+			return nil
+		}
+	}
+	lit := "false"
+	if be.Op == token.LOR {
+		lit = "true"
+	}
+	tok := token.ASSIGN
+	a1 := &ast.AssignStmt{Lhs: x.Lhs, TokPos: x.TokPos, Tok: tok, Rhs: []ast.Expr{be.Y}}
+	a2 := &ast.AssignStmt{Lhs: x.Lhs, TokPos: x.TokPos, Tok: tok, Rhs: []ast.Expr{ast.NewIdent(lit)}}
+	if be.Op == token.LOR {
+		a1, a2 = a2, a1
+	}
+	return &ast.IfStmt{If: x.Pos(), Cond: be.X, Body: &ast.BlockStmt{List: []ast.Stmt{a1}}, Else: &ast.BlockStmt{List: []ast.Stmt{a2}}}
 }
 
 func (e *nenum) stmts(fr *nframe, list []ast.Stmt) {
@@ -1384,6 +1937,10 @@ func (e *nenum) stmt(fr *nframe, s ast.Stmt) {
 		}
 		e.calls(fr, x.X)
 	case *ast.AssignStmt:
+		if syn := e.shortCircuitAssign(fr, x); syn != nil {
+			e.stmt(fr, syn)
+			return
+		}
 		if len(x.Rhs) == 1 {
 			if ce, ok := x.Rhs[0].(*ast.CallExpr); ok {
 				if d := e.helperOf(fr, ce); d != nil && d.Type.Results != nil {
@@ -1488,6 +2045,21 @@ func (e *nenum) stmt(fr *nframe, s ast.Stmt) {
 			}
 		}
 		if len(x.Results) == 1 {
+			if be, ok := stripParens(x.Results[0]).(*ast.BinaryExpr); ok && (be.Op == token.LAND || be.Op == token.LOR) && hasEffectCall(be.Y) {
+				// `return a && f()` is `if a { return f() }; return false` (and dually for ||): the call is conditional
+				lit := "false"
+				if be.Op == token.LOR {
+					lit = "true"
+				}
+				cond := be.X
+				r1 := &ast.ReturnStmt{Return: x.Return, Results: []ast.Expr{be.Y}}
+				r2 := &ast.ReturnStmt{Return: x.Return, Results: []ast.Expr{ast.NewIdent(lit)}}
+				if be.Op == token.LOR {
+					r1, r2 = r2, r1
+				}
+				e.stmt(fr, &ast.IfStmt{If: x.Return, Cond: cond, Body: &ast.BlockStmt{List: []ast.Stmt{r1}}, Else: &ast.BlockStmt{List: []ast.Stmt{r2}}})
+				return
+			}
 			if ce, ok := x.Results[0].(*ast.CallExpr); ok {
 				if d := e.helperOf(fr, ce); d != nil && d.Type.Results != nil {
 					if fr.parent == nil {
@@ -1495,6 +2067,24 @@ func (e *nenum) stmt(fr *nframe, s ast.Stmt) {
 						return
 					}
 				}
+			}
+		}
+		// a result computed by a package helper with a body of its own is computed first (`return nil, p.check(x)`
+		// reads like `ok := p.check(x); return nil, ok`)
+		{
+			var hoisted []ast.Expr
+			for i, r := range x.Results {
+				if h := e.hoistCond(fr, r); h != r {
+					if hoisted == nil {
+						hoisted = append([]ast.Expr{}, x.Results...)
+					}
+					hoisted[i] = h
+				}
+			}
+			if hoisted != nil {
+				cp := *x
+				cp.Results = hoisted
+				x = &cp
 			}
 		}
 		for _, r := range x.Results {
